@@ -193,30 +193,11 @@ def shStep (ws : List String) : String :=
       match parseFrame fr, initFuncDetail l.env l.sig with
       | some f, .ok (_, d) =>
         let (st, insts) := emitArgsAssignment (cfgOf l) f l.argsSa (valsOf d l.dsts)
-        (if st == "ok" then "ok" else "err " ++ st) ++ " | " ++ ";".intercalate (insts.map instStr)
+        (match st with | none => "ok" | some m => "err " ++ m) ++ " | " ++ ";".intercalate (insts.map instStr)
       | _, .error m => "fd-err " ++ m
       | none, _ => "bad-op frame"
     | _ => "bad-op sep"
   | none => "bad-op sig"
-
-/-- variable infos / initial state / destinations of an assignment, as the monitor and the theorem use them -/
-def setupOf (d : Detail) (dsts : List (Option FuncValue)) : List VarInfo × State × List (Nat × Loc) :=
-  let vals := valsOf d dsts
-  let vars : List VarInfo := vals.map fun (src, dd) =>
-    match dd with
-    | some o => { srcType := src.typeId,
-                  dstType := if o.typeId ≠ 0 then o.typeId else if o.isReg then typeIdOfReg o.regType else src.typeId }
-    | none => { srcType := src.typeId, dstType := src.typeId }
-  let idx := List.range vals.length
-  let init : State := (idx.zip vals).filterMap fun (i, src, dd) =>
-    match dd with
-    | none => none
-    | some _ =>
-      if src.isReg then some (Loc.reg (groupOf src.regType) src.regId, initTok vars i)
-      else if src.isStack then some (Loc.argStack src.stackOffset, initTok vars i) else none
-  let dests : List (Nat × Loc) := (idx.zip dsts).filterMap fun (i, dd) =>
-    dd.map fun o => (i, if o.isReg then Loc.reg (groupOf o.regType) o.regId else Loc.outStack o.stackOffset)
-  (vars, init, dests)
 
 /-- `monsh <sh line> | <status...> sa=<id>.<da>.<off> fr=... | <instructions>` -/
 def monStep (ws : List String) : String :=
@@ -232,7 +213,7 @@ def monStep (ws : List String) : String :=
           match ((" ".intercalate instWords).splitOn ";").filter (· ≠ "") |>.mapM parseInst with
           | some insts =>
             let sp := spId l.env.arch
-            let (vars, init, dests) := setupOf d l.dsts
+            let (vars, init, dests) := setup (valsOf d l.dsts)
             match run vars f.saOffSp f.saOffSa sp init insts with
             | none => "BAD unknown-instruction-or-address"
             | some fin =>
